@@ -143,8 +143,16 @@ def expand(job):
                 if rnd.random() < 0.45:
                     d[k_] = sg * rnd.choice([0, 1, rnd.randint(0, hi)])
             last = next((k_ for k_ in ("s", "mi", "h") if k_ in d), None)
-            if last and rnd.random() < 0.4:
+            x2 = rnd.random()
+            if last and x2 < 0.4:
                 d[last] = d[last] + sg * rnd.choice([0.5, 0.25, 0.125, 0.1, 0.3, 0.000001, 0.999999, 0.75])
+            elif x2 < 0.55:
+                # decimals on ANY of the time units (not only the last one present), incl. values so small that Python
+                # prints them in exponent notation and values with many significant digits
+                for k_ in ("h", "mi", "s"):
+                    if rnd.random() < 0.5:
+                        d[k_] = d.get(k_, 0) + sg * rnd.choice([0.5, 0.25, 0.1, 1.23456e-05, 9.99999e-05, 3e-10, 1.5e-05, 0.1234567891234, 1e-07,
+                                                                0.000123456789, 2.5e-06])
             yield {"kind": "obj", "d": d}
         elif x < 0.88:
             yield {"kind": "alt", "reduced": rnd.choice(["ym", "y"]), "y": rnd.choice([0, 1, 4, 1999, rnd.randint(0, 9999)]), "mo": rnd.randint(0, 12)}
